@@ -305,10 +305,28 @@ def run_cached(klepto, group, cfg):
     if cfg['form'] == 'mix':
         # every call in its three spellings, one after the other: the spelling must not matter to the rounding
         calls = [(c, False, fm) for c in group['calls'] for fm in ('pos', 'allkw', 'kw')]
+    persistent = {}
+
+    def reuse(pos, x):
+        """cfg['inplace']: the caller keeps ONE list / dict / set object per argument position and updates it in place from call
+        to call (an optimiser's parameter vector): each call must be keyed by what the container holds at that moment"""
+        if not cfg.get('inplace') or type(x) not in (list, dict, set):
+            return x
+        p = persistent.get((pos, type(x)))
+        if p is None:
+            persistent[(pos, type(x))] = x
+            return x
+        if type(x) is list:
+            p[:] = x
+        else:
+            p.clear()
+            p.update(x)
+        return p
     for c, aliased, form in calls:
         def args_of():
             memo = {} if aliased else None
-            return spell(form, build(c[0], memo), build(c[1], memo), dflt)
+            a_, k_ = spell(form, build(c[0], memo), build(c[1], memo), dflt)
+            return tuple(reuse(('p', n), v) for n, v in enumerate(a_)), dict((n, reuse(('k', n), v)) for n, v in k_.items())
         e = {'call': c, 'exc': 'none', 'kind': 'none', 'evals': 0, 'kc': -1, 'base': 'none', 'recv': [], 'form': form}
         # the same call without rounding: is it a valid call for this configuration at all?
         a, k = args_of()
@@ -475,6 +493,15 @@ def main(pid, tier):
                         for form in ('allkw', 'kw', 'pos', 'kwnames', 'omit') if thorough else (('allkw', 'kw', 'kwnames', 'omit') if mode == 'std' else ('allkw', 'kwnames')):
                             for deep in ((False, True) if thorough else (False,)):
                                 jobs.append((g, dict(tol=tol, deep=deep, enc='str', mode=mode, form=form, alg=alg)))
+            if g['sh'] in (2, 4, 6, 8, 10, 13, 14):
+                # the caller re-uses one container object per argument position and updates it in place between the calls
+                for deep in (False, True):
+                    for enc, mode in (('str', 'keygen'), ('pickle', 'std')) if not thorough else (('str', 'keygen'), ('pickle', 'std'), ('hash', 'safe'), ('raw', 'keygen')):
+                        if mode == 'safe' and enc == 'raw':
+                            continue
+                        jobs.append((g, dict(tol=tol, deep=deep, enc=enc, mode=mode, form=['pos', 'kw', 'allkw'][len(jobs) % 3], inplace=True,
+                                             **({} if mode == 'keygen' else {'alg': ALGS[len(jobs) % len(ALGS)]}))))
+            if g['sh'] == 1:
                 # every call in all its spellings within one history (shallow and deep rounding, textual and pickled keys)
                 for deep in (False, True):
                     for enc in ('str', 'pickle', 'hash') if thorough else ('str', 'pickle'):
